@@ -106,8 +106,12 @@ def export_check():
     import imath
     out = {"classes": {}, "bad": [], "cases": 0, "unknown": []}
 
-    def check(label, mv, kind, size, shape, strides, values):
+    def check(label, mv, kind, size, shape, strides, values, model=None):
         out["cases"] += 1
+        if model is not None:
+            # for the Lean model of the exported view (`exportBytes`): class whose traits apply, the array's length / element
+            # stride, its storage block and the byte offset of its first element; `tobytes` is what a consumer reads
+            out.setdefault("model_cases", []).append(dict(model, what=label, tobytes=mv.tobytes().hex()))
         exp = {"itemsize": size, "ndim": len(shape), "shape": list(shape), "strides": list(strides),
                "nbytes": size * (1 if not shape else __import__("functools").reduce(lambda a, b: a * b, shape, 1))}
         got = {"itemsize": mv.itemsize, "ndim": mv.ndim, "shape": list(mv.shape), "strides": list(mv.strides), "nbytes": mv.nbytes}
@@ -163,7 +167,11 @@ def export_check():
             mv = memoryview(a)
             shape = (L,) if w == 1 else (L, w)
             strides = (size,) if w == 1 else (w * size, size)
-            ok = check("%s(%d)" % (n, L), mv, kind, size, shape, strides, vals)
+            FMT = {("float", 4): "f", ("float", 8): "d", ("signed", 1): "b", ("signed", 2): "h", ("signed", 4): "i", ("signed", 8): "q",
+                   ("unsigned", 1): "B", ("unsigned", 2): "H", ("unsigned", 4): "I"}[(kind, size)]
+            storage = struct.pack("<%d%s" % (len(vals), FMT), *[float(x) if kind == "float" else x for x in vals]).hex()
+            ok = check("%s(%d)" % (n, L), mv, kind, size, shape, strides, vals,
+                       {"cls": n, "length": L, "stride": 1, "mem": storage, "off": 0})
             rec["lengths"].append(L)
             # a write through the view lands in the array
             if ok and L and not mv.readonly:
@@ -192,7 +200,12 @@ def export_check():
                     a2 = [7 * i + k + 1 for i in range(L)]
                     if L and not mv.readonly and k == w - 1:
                         a2[L - 1] = 99
-                    check("%s(%d).%s" % (n, L, cn), mvc, kind, size, (L,), (w * size,), a2)
+                    st2 = list(vals)
+                    if L and not mv.readonly:
+                        st2[(L - 1) * w + (w - 1)] = 99      # the write made through the parent's view above
+                    storage2 = struct.pack("<%d%s" % (len(st2), FMT), *[float(x) if kind == "float" else x for x in st2]).hex()
+                    check("%s(%d).%s" % (n, L, cn), mvc, kind, size, (L,), (w * size,), a2,
+                          {"cls": type(comp).__name__, "length": L, "stride": w, "mem": storage2, "off": k * size})
                     if cn not in rec["components"]:
                         rec["components"].append(cn)
     json.dump(out, sys.stdout)
